@@ -106,17 +106,18 @@ mod imp {
                 match val { Val::Int(n) => n.to_string(), Val::Str(t) => format!("\"{}\"", t) }),
             Stmt::SetLit { name, val } => format!("{} = {}", name, val),
             Stmt::AddTo { name, k } => format!("{} = {} + {}", name, name, k),
-            Stmt::Def { name, def } => match &def.kind {
-                FnKind::AddK(k) => format!("fn {}(x) {{ println(\"{}\"); return x + {} }}", name, def.tag, k),
-                FnKind::ReadG(g) => format!("fn {}(x) {{ println(\"{}\"); return {} + x }}", name, def.tag, g),
-                FnKind::BumpG(g) => format!("fn {}(x) {{ println(\"{}\"); {} = {} + x; return {} }}", name, def.tag, g, g, g),
-                FnKind::Boom => format!("fn {}(x) {{ println(\"{}\"); return x / zero }}", name, def.tag),
-                FnKind::CallF(t, k) => format!("fn {}(x) {{ println(\"{}\"); return {}({}) + {} }}", name, def.tag, t, arg_of(t), k),
+            Stmt::Def { name, def } => { let pr = if def.tag.is_empty() { String::new() } else { format!("println(\"{}\"); ", def.tag) }; match &def.kind {
+                // (an empty tag: a function that prints nothing -- small and pure, what an inliner likes)
+                FnKind::AddK(k) => format!("fn {}(x) {{ {}return x + {} }}", name, pr, k),
+                FnKind::ReadG(g) => format!("fn {}(x) {{ {}return {} + x }}", name, pr, g),
+                FnKind::BumpG(g) => format!("fn {}(x) {{ {}{} = {} + x; return {} }}", name, pr, g, g, g),
+                FnKind::Boom => format!("fn {}(x) {{ {}return x / zero }}", name, pr),
+                FnKind::CallF(t, k) => format!("fn {}(x) {{ {}return {}({}) + {} }}", name, pr, t, arg_of(t), k),
                 FnKind::Apply => format!("fn {}(cb, x) {{ return cb(x) }}", name),
                 FnKind::Bump0(g) => format!("fn {}(x) {{ println(\"{}\"); {} = {} + x; let q = 0 }}", name, def.tag, g, g),
                 FnKind::Loop => format!("fn {}(x) {{ return {}({}) + 1 }}", name, name, arg_of(name)),
                 FnKind::Closure(t) => format!("fn mk{}(c) {{ return fn(x) {{ println(\"{}\"); return {}({}) + c }} }}\nlet mut {} = mk{}(0)", name, def.tag, t, arg_of(t), name, name),
-            },
+            } },
             Stmt::CopyFn { dst, src, fresh } => if *fresh { format!("let mut {} = {}", dst, src) } else { format!("{} = {}", dst, src) },
             Stmt::PrintVar { name } => format!("println({})", name),
             Stmt::PrintCall { f, arg } => format!("println({}({}))", f, arg),
@@ -334,7 +335,7 @@ mod imp {
         fn pick(&mut self, v: &[String]) -> String { v[self.rng.below(v.len() as u64) as usize].clone() }
         fn good_stmt(&mut self, defined_here: &mut HashSet<String>, assigned_here: &mut HashSet<String>) -> Option<Stmt> {
             let r = self.rng.below(100);
-            let mv = self.int_vars(true); let iv = mv.clone(); let av = self.all_vars(); let fs = self.fns(true);
+            let mv = self.int_vars(true); let iv = self.int_vars(false); let av = self.all_vars(); let fs = self.fns(true);
             if r < 14 {
                 // new or redefined variable
                 let name = if !av.is_empty() && self.rng.chance(1, 4) { self.pick(&av) } else { self.fresh("g") };
@@ -360,7 +361,7 @@ mod imp {
                 if !callees.is_empty() && self.rng.chance(1, 4) {
                     let name = self.fresh("c");
                     defined_here.insert(name.clone());
-                    let tag = self.fresh("T");
+                    let tag = if self.rng.chance(1, 3) { String::new() } else { self.fresh("T") };
                     let t = self.pick(&callees);
                     return Some(Stmt::Def { name: name.clone(), def: FnDef { home: name.clone(), tag, kind: FnKind::CallF(t, 0) } });
                 }
@@ -382,8 +383,9 @@ mod imp {
                 let name = if !fnames.is_empty() && self.rng.chance(1, 3) { self.pick(&fnames) } else { self.fresh("f") };
                 if defined_here.contains(&name) { return None; }
                 defined_here.insert(name.clone());
-                let tag = self.fresh("T");
+                let mut tag = self.fresh("T");
                 let k = self.rng.below(10);
+                if k < 6 && self.rng.chance(1, 3) { tag = String::new(); }
                 let kind = if k < 3 || iv.is_empty() { FnKind::AddK(self.rng.range_i64(1, 20)) }
                     else if k < 6 { FnKind::ReadG(self.pick(&iv)) }
                     else if k < 8 && !mv.is_empty() { let gname = self.pick(&mv); assigned_here.insert(gname.clone()); FnKind::BumpG(gname) }
@@ -427,7 +429,7 @@ mod imp {
         fn prune_dangling(&mut self) {
             let vars = self.o.vars.clone();
             self.o.fns.retain(|_, d| match &d.kind {
-                FnKind::ReadG(g) => matches!(vars.get(g), Some((Val::Int(_), true))),
+                FnKind::ReadG(g) => matches!(vars.get(g), Some((Val::Int(_), _))),
                 FnKind::BumpG(g) | FnKind::Bump0(g) => matches!(vars.get(g), Some((Val::Int(_), true))),
                 _ => true });
             let names: HashSet<String> = self.o.fns.keys().cloned().collect();
@@ -489,6 +491,28 @@ mod imp {
                         return Step::Host { f, arg, cached: self.rng.chance(1, 3), extra: false };
                     }
                     return Step::HostSet { name, val };
+                }
+            }
+            // directed: caller and callee (or a function and the constant it reads) defined IN ONE INPUT, the callee / constant
+            // redefined by a later input, then the caller called from an input and by the host -- a name bound once in its
+            // input is not bound once in the session
+            if self.rng.chance(1, 9) {
+                if self.rng.chance(1, 2) {
+                    let f = self.fresh("f"); let c = self.fresh("c");
+                    let (k1, k2) = (self.rng.range_i64(1, 20), self.rng.range_i64(21, 40));
+                    let d = |f: &str, k: i64| Stmt::Def { name: f.to_string(), def: FnDef { home: f.to_string(), tag: String::new(), kind: FnKind::AddK(k) } };
+                    self.queued.push(Step::Host { f: c.clone(), arg: arg_of(&c), cached: self.rng.chance(1, 2), extra: false });
+                    self.queued.push(Step::Input { stmts: vec![Stmt::PrintCall { f: c.clone(), arg: arg_of(&c) }], expect: Expect::Ok });
+                    self.queued.push(Step::Input { stmts: vec![d(&f, k2)], expect: Expect::Ok });
+                    return Step::Input { stmts: vec![d(&f, k1), Stmt::Def { name: c.clone(), def: FnDef { home: c.clone(), tag: String::new(), kind: FnKind::CallF(f.clone(), 0) } }], expect: Expect::Ok };
+                } else {
+                    let gname = self.fresh("g"); let f = self.fresh("f");
+                    let (v1, v2) = (self.rng.range_i64(-50, 0), self.rng.range_i64(1, 50));
+                    self.queued.push(Step::Host { f: f.clone(), arg: arg_of(&f), cached: self.rng.chance(1, 2), extra: false });
+                    self.queued.push(Step::Input { stmts: vec![Stmt::PrintCall { f: f.clone(), arg: arg_of(&f) }], expect: Expect::Ok });
+                    self.queued.push(Step::Input { stmts: vec![Stmt::Let { name: gname.clone(), mutable: false, val: Val::Int(v2) }], expect: Expect::Ok });
+                    return Step::Input { stmts: vec![Stmt::Let { name: gname.clone(), mutable: false, val: Val::Int(v1) },
+                                                     Stmt::Def { name: f.clone(), def: FnDef { home: f.clone(), tag: String::new(), kind: FnKind::ReadG(gname) } }], expect: Expect::Ok };
                 }
             }
             // directed: a closure of an earlier input calls a global function; this input rebinds that function and, in the
@@ -709,6 +733,10 @@ mod imp {
     pub fn fn_body(name: &str, def: &FnDef, names: &mut Names) -> (u32, Vec<String>) {
         let a = arg_of(name);
         let tag = format!("IOut {}", zc(line_code(&def.tag)));
+        let (ar, body) = fn_body_tagged(name, def, names, a, tag.clone());
+        (ar, if def.tag.is_empty() { body.into_iter().filter(|i| *i != tag).collect() } else { body })
+    }
+    fn fn_body_tagged(name: &str, def: &FnDef, names: &mut Names, a: i64, tag: String) -> (u32, Vec<String>) {
         match &def.kind {
             FnKind::AddK(k) => (1, vec![tag, format!("IOut {}", zc(a + k))]),
             FnKind::ReadG(g) => (1, vec![tag, format!("IPrint {}%N {}", names.id(g), zc(a))]),
